@@ -257,7 +257,7 @@ def s(self, v, t):
         ex = extract(prog, f)
         sp = spec(prog, src, f)
         evs = lambda x: [ev for ev in x.events if ev.name in ("store_sub", ".update", ".add")]
-        same_events(ctx, "I1", V + m, f, evs(ex), evs(sp), "visitor effects")
+        same_events(ctx, "I1", V + m, f, evs(ex), evs(sp), "visitor effects", guards=True)
         ctx.analysed(f)
     vinit = prog.fn(V + "__init__")
     ex = extract(prog, vinit)
@@ -357,6 +357,11 @@ def run(ctx):
     rule_T3(ctx)
     rule_I1(ctx)
     rule_I2(ctx)
+    # the tree queries the densities read (number of clones, top-level clones, descendants, per-clone data,
+    # outliers, multiplicity, root likelihood vector) against the reference semantics of the editor
+    from ._treespec import rule_TS
+
+    rule_TS(ctx, owners=["tree.Tree"])
 
 
 _D = "phyclone/tree/distributions.py"
